@@ -1,6 +1,7 @@
 """Digit-separator rules (C13): peek dispatch, per-component consistency, the counting protocol."""
 from rules.core import (path_conditions, op_expr, rvalue_expr, show, strip_casts, expr_calls, expr_consts, callee_name, last_seg,
                         pol_is_variant, AnchorMissing)
+from rules.core import enum_paths
 from rules import grd as G
 
 FL = "lexical_util::format_flags::"
@@ -446,3 +447,33 @@ def rule_take_n_twins(col, facts):
     for key, (kind, idx, loc) in sorted(shapes.items()):
         col.check(R, "take_n:%s" % key, kind == "RangeTo" and idx == "cursor()",
                   "the window is `from_parts(&slc[%s], %s)`; its siblings (and every index the parsers report) need a prefix of the whole buffer with the absolute cursor: `from_parts(&slc[..end], self.cursor())`" % ("..end" if kind == "RangeTo" else kind, idx), loc)
+
+
+def rule_window_keeps_count(col, facts):
+    """PROTO-count (window): `take_n` hands the integer parser a fresh `Bytes` whose digit counters start at
+    zero; the digits parsed through that window never reach the caller's `current_count()`.  That is harmless
+    only when the count *is* the cursor, i.e. when the buffer (not just the component iterator) is contiguous -
+    so every path to the window constructor must carry `<Bytes as Iter>::IS_CONTIGUOUS == true`.  Otherwise a
+    format with separators in another component reports `Empty` for "12a" (u8) or "12h" with a base suffix,
+    which its separator-free counterpart parses."""
+    if "format" not in facts.config:
+        return
+    R = "PROTO-count"
+    n = 0
+    for f in facts.all_fns():
+        if f.crate != "lexical_util" or "skip::" not in f.short or not f.short.endswith("::take_n"):
+            continue
+        tg = {bb for bb, c, a, d, t in f.calls() if last_seg(callee_name(c)) == "from_parts"}
+        for t, atoms in enum_paths(f, 0, tg):
+            n += 1
+            ok = False
+            for e, pol in atoms:
+                e = strip_casts(e)
+                if e[0] == "kc" and last_seg(e[1]) == "IS_CONTIGUOUS" and pol is True:
+                    args = e[3] if len(e) > 3 else ""
+                    if "skip::Bytes<" in args and "DigitsIterator" not in args.split(",")[0]:
+                        ok = True
+            key = f.short.split("::take_n")[0].split("::")[-1]
+            col.check(R, "window:%s" % key, ok,
+                      "a zero-count window (`Bytes::from_parts`) is handed out without knowing that the buffer is contiguous (only the component iterator's IS_CONTIGUOUS is tested): digits parsed through it are missing from the caller's current_count(), so e.g. `12a` as u8 is reported Empty by a format with separators in another component", f.loc(f.blocks[t]["ts"]))
+    col.floor(R, "take_n window paths", n, 3)
